@@ -211,8 +211,10 @@ class EchoSession(asyncssh.SSHServerSession):
 
 def run_victim_server(strict: bool, scenario: str,
                       inject: Optional[Tuple[int, bytes]],
-                      inject2: Optional[Tuple[int, bytes]] = None):
-    """Returns (effect log, refpeer, link-level info)"""
+                      inject2: Optional[Tuple[int, bytes]] = None,
+                      rekey_at: Optional[str] = None):
+    """Returns (effect log, refpeer, link-level info).  rekey_at: the peer
+    starts a (legal) second key exchange at that point of the dialogue"""
 
     log: List[Any] = []
     ref = RefPeer('client', strict=strict)
@@ -242,22 +244,33 @@ def run_victim_server(strict: bool, scenario: str,
             return not link.rp.lost and not link.rp.eof and \
                 ref.disconnected is None and link.rp.error is None
 
+        def rekey(pos):
+            if rekey_at == pos and alive() and ref.first_kex_done:
+                ref.rekey()
+                link.pump()
+
+        rekey('post-kex')
         if alive() and ref.first_kex_done:
             conn.request_service()
             link.pump()
+        rekey('post-service')
         if alive() and ref.first_kex_done:
             conn.auth_none('user')
             link.pump()
+        rekey('mid-auth')
         if alive() and ref.first_kex_done:
             conn.auth_password('user', 'pw' if scenario == 'ok' else 'bad')
             link.pump()
+        rekey('post-auth')
 
         if alive() and ref.first_kex_done and scenario == 'ok':
             ch = conn.open_channel()
             link.pump()
+            rekey('post-open')
             if alive() and ch.confirmed:
                 conn.chan_request(ch, b'exec', True, string(b'cmd'))
                 link.pump()
+            rekey('in-session')
             if alive() and ch.confirmed:
                 conn.data(ch, b'hello')
                 conn.eof(ch)
@@ -281,6 +294,7 @@ def run_victim_server(strict: bool, scenario: str,
                                  if t == 3 and len(p) == 5]
         info['applied'] = info['inj_seq'] is not None
         info['ref_saw'] = summarize_ref(conn)
+        info['exchanges'] = len(ref.exchanges)
         return log, info
     finally:
         link.close()
@@ -328,7 +342,8 @@ async def client_script(link, log):
 
 def run_victim_client(strict: bool, scenario: str,
                       inject: Optional[Tuple[int, bytes]],
-                      inject2: Optional[Tuple[int, bytes]] = None):
+                      inject2: Optional[Tuple[int, bytes]] = None,
+                      rekey_at: Optional[str] = None):
     log: List[Any] = []
     hk = _HK.setdefault('ed', RefKey('ed25519'))
     ref = RefPeer('server', strict=strict, host_key=hk)
@@ -368,8 +383,46 @@ def run_victim_client(strict: bool, scenario: str,
                     conn.eof(ch)
                     conn.close(ch)
 
+        rekeyed = [False]
+
+        def rekey_due() -> bool:
+            if rekeyed[0] or not rekey_at or not ref.first_kex_done:
+                return False
+            if rekey_at == 'post-kex':
+                return False
+            if rekey_at == 'post-auth':
+                return bool(conn.channels)
+            return any(ch.requests for ch in conn.channels.values())
+
+        if rekey_at == 'post-kex':
+            # hold the answer to the SERVICE_REQUEST back so that the second
+            # exchange happens before authentication has even started
+            conn.auto = False
+            link.pump()
+
+            if ref.first_kex_done and ref.disconnected is None and \
+                    link.rp.error is None:
+                rekeyed[0] = True
+                ref.rekey()
+                link.pump()
+
+            held, conn.log = list(conn.log), []
+            conn.auto = True
+
+            for t_, p_ in held:
+                if t_ == 5:
+                    conn._on(t_, p_)      # pylint: disable=protected-access
+
+            link.pump()
+
         for _ in range(50):
             link.pump()
+
+            if rekey_due():
+                rekeyed[0] = True
+                ref.rekey()
+                link.pump()
+
             before = state['exec']
             serve()
             if task.done() or state['exec'] == before and not ref.out:
@@ -395,6 +448,7 @@ def run_victim_client(strict: bool, scenario: str,
                                  if t == 3 and len(p) == 5]
         info['applied'] = info['inj_seq'] is not None
         info['ref_saw'] = [(u, s, m) for u, s, m in conn.auth_requests]
+        info['exchanges'] = len(ref.exchanges)
         return log, info
     finally:
         link.close()
@@ -698,6 +752,66 @@ def blind_cases(tier: str):
                                    'insert': insert, 'drop': drop}
 
 
+# ----------------------------------------------------------------- rekex ---
+
+REKEX_POS = ['post-kex', 'post-service', 'mid-auth', 'post-auth',
+             'post-open', 'in-session']
+
+
+def run_rekex(case) -> CaseResult:
+    """A second key exchange started by the peer at every point of the
+    dialogue - also inside the authentication phase - is not an injection:
+    the session goes on exactly as without it.  Under strict KEX refpeer
+    restarts both sequence numbers at the NEWKEYS of EVERY exchange (like
+    OpenSSH, it lists the strict marker in its first KEXINIT only); if the
+    victim does not, neither side can read the other any more."""
+
+    victim, strict, scenario = case['victim'], case['strict'], \
+        case['scenario']
+    fn = run_victim_server if victim == 'server' else run_victim_client
+    base_log, _ = baseline(victim, strict, scenario)
+    log, info = fn(strict, scenario, None, rekey_at=case['at'])
+    labels = ['victim:' + victim, 'at:' + case['at'],
+              'strict' if strict else 'not-strict', 'scenario:' + scenario]
+
+    if info['exchanges'] < 2:
+        if scenario != 'ok' and (
+                case['at'] in ('post-open', 'in-session') or
+                (victim == 'client' and case['at'] == 'post-auth')):
+            # (no session without authentication)
+            return CaseResult(labels + ['position-not-reached'], False)
+        raise Violation('rekex', 'the second key exchange did not complete '
+                        '(%s, %s, strict=%s): ref error %r, log %r' %
+                        (victim, case['at'], strict, info['ref_error'],
+                         log[-4:]), 'rekex:incomplete:' + case['at'])
+
+    if info['ref_error']:
+        raise Violation('rekex', 'after the re-exchange the independent peer '
+                        'cannot decode the victim: %s' % info['ref_error'],
+                        'rekex:decode:' + case['at'])
+
+    if info['loop_errors']:
+        raise Violation('loop-error', repr(info['loop_errors'][0])[:300],
+                        'rekex:loop-error')
+
+    if log != base_log:
+        raise Violation('rekex', 'effect log differs from the dialogue '
+                        'without a re-exchange: %r vs %r' % (log, base_log),
+                        'rekex:effects:' + case['at'])
+
+    return CaseResult(labels + ['rekeyed'], True)
+
+
+def rekex_cases(tier: str):
+    for victim in ('server', 'client'):
+        for strict in (True, False):
+            for scenario in ('ok', 'fail'):
+                for at in (REKEX_POS if victim == 'server' else
+                           ['post-kex', 'post-auth', 'in-session']):
+                    yield {'victim': victim, 'strict': strict,
+                           'scenario': scenario, 'at': at}
+
+
 def _required():
     req = ['outcome:A', 'outcome:B', 'strict', 'non-strict']
     for v in ('server', 'client'):
@@ -715,4 +829,9 @@ FAMILIES = [
            case_timeout=120),
     Family('pairs', run_grid, strategy=pairs_strategy,
            budget={'quick': 600, 'thorough': 12000}, case_timeout=120),
+    Family('rekex', run_rekex, enumerate=rekex_cases, exhaustive=True,
+           required={'all': ['rekeyed', 'strict', 'not-strict',
+                             'victim:server', 'victim:client', 'at:mid-auth',
+                             'at:post-kex', 'at:in-session']},
+           case_timeout=120),
 ]
